@@ -38,6 +38,7 @@ def strategy(draw):
         ps = [draw(st.one_of(st.sampled_from([0.0, 1.0, 0.05, 0.5]), st.floats(0, 1), st.floats(0, 1e-3))) for _ in range(n)]
         return {"kind": "bh", "p": ps}
     nchrom = draw(st.integers(1, 3))
+    style = draw(st.sampled_from(["chr", "chr", ""]))
     chroms = []
     for ci in range(nchrom):
         nseg = draw(st.integers(1, 4))
@@ -46,8 +47,8 @@ def strategy(draw):
             segs.append({"n": draw(st.one_of(st.integers(0, 4), st.integers(1, 40), st.integers(1, 300))),
                          "level": draw(st.sampled_from([-1.0, -0.3, 0.0, 0.0, 0.4, 1.0])),
                          "offset": draw(st.sampled_from([0.0, 0.0, 0.1, -0.25]))})
-        chroms.append({"name": ["chr1", "chr2", "chrX"][ci], "segs": segs})
-    return {"kind": "seg", "chroms": chroms, "seed": draw(st.integers(0, 2 ** 31)),
+        chroms.append({"name": style + ["1", "2", "X"][ci], "segs": segs})
+    return {"kind": "seg", "style": style, "chroms": chroms, "seed": draw(st.integers(0, 2 ** 31)),
             "noise": draw(st.sampled_from([0.0, 0.05, 0.3])), "palette": draw(st.booleans()),
             "null_frac": draw(st.sampled_from([0.0, 0.0, 0.1])),
             "loc": sorted(draw(st.sets(st.sampled_from(LOC)))), "spread": sorted(draw(st.sets(st.sampled_from(SPREAD)))),
@@ -101,7 +102,7 @@ def build(case):
                 a["end"] = mid
                 b["start"] = mid
     if case["extra_empty_chrom"]:
-        segs.append({"chromosome": "chrY", "start": 10, "end": 5000, "gene": "-", "log2": 0.5, "probes": 0, "weight": 1.0})
+        segs.append({"chromosome": case.get("style", "chr") + "Y", "start": 10, "end": 5000, "gene": "-", "log2": 0.5, "probes": 0, "weight": 1.0})
     return bins, segs
 
 
